@@ -163,6 +163,25 @@ def gen_case(rng, idx: int):
                          ([f"namespace ns_{idx}_{ci} {{"] + ["  " + l if l else l for l in c["lines"]] + ["}"])
             c["kinds"] = ["outside"] + c["kinds"] + ([] if lang == "py" else ["outside"])
             c["header_offset"] = 1
+        elif rng.random() < 0.35:
+            # a class is a class wherever it is declared: under a compound statement, in a function, in a namespace / module
+            head, tail, ind = rng.choice({
+                "py": [(["if FEATURE_%d:" % ci], [], "    "), (["if TYPE_CHECKING:", "    pass", "else:"], [], "    "),
+                       (["try:"], ["except ImportError:", "    pass"], "    "), (["try:", "    import fast_%d" % ci, "except ImportError:"], [], "    "),
+                       (["with scope_%d():" % ci], [], "    "), (["for _round_%d in range(1):" % ci], [], "    "),
+                       (["while RUNNING_%d:" % ci], ["    break"], "    "), (["def build_%d_%d():" % (idx, ci)], [], "    "),
+                       (["async def abuild_%d_%d():" % (idx, ci)], [], "    "),
+                       (["if FEATURE_%d:" % ci, "    try:"], ["    finally:", "        pass"], "        ")],
+                "ts": [(["namespace space_%d_%d {" % (idx, ci)], ["}"], "  "), (["if (FEATURE_%d) {" % ci], ["}"], "  "),
+                       (["function build_%d_%d() {" % (idx, ci)], ["}"], "  "), (["try {"], ["} catch (e) { }"], "  "),
+                       (["export namespace pub_%d_%d {" % (idx, ci)], ["}"], "  "), (["{"], ["}"], "  ")],
+                "rs": [(["mod inner_%d_%d {" % (idx, ci)], ["}"], "    "), (["pub mod api_%d_%d {" % (idx, ci)], ["}"], "    "),
+                       (["fn build_%d_%d() {" % (idx, ci)], ["}"], "    ")],
+            }[lang])
+            c["lines"] = head + [ind + l if l else l for l in c["lines"]] + tail
+            c["kinds"] = ["outside"] * len(head) + c["kinds"] + ["outside"] * len(tail)
+            c["header_offset"] = len(head)
+            c["wrapped"] = head[-1].split("(")[0].split()[0].rstrip(":{") or "block"
         classes.append(c)
     # max_loc around one class's measured size (computed by the model later: use the raw code-line count here)
     c0 = rng.choice(classes)
@@ -226,7 +245,7 @@ def run(tier: str, seed: int, st: core.ProofStatus) -> core.Result:
     res = core.Result()
     res.rule = ("seeded files in Python / TypeScript / Rust with 1-4 classes (struct + one or two impl blocks), public-method counts swept "
                 "-2..+3 around max_methods, mixed member kinds (private, dunder, constructor, property, static, fields), blank/comment "
-                "lines, max_loc swept around one class's size, keyword names, check_keywords on/off, overrides for the file's language or "
+                "lines, a third of the classes declared under if / else / try / except / with / for / while / def / namespace / mod / a bare block, max_loc swept around one class's size, keyword names, check_keywords on/off, overrides for the file's language or "
                 "another one; non-trivial = a file with both a reported and an unreported class; distinct by rendered text + config")
     rng = core.sub_rng(seed, PROP, tier)
     n = 200 if tier == "quick" else 5000
@@ -247,6 +266,8 @@ def run(tier: str, seed: int, st: core.ProofStatus) -> core.Result:
     for c, im, m in zip(cases, impls, leans):
         res.evaluations += 1
         res.bump("lang", c["lang"])
+        for k in c["classes"]:
+            res.bump("class declared under", k.get("wrapped", "top level / same-name wrapper"))
         lines, headers = render_file(c)
         case = {"lang": c["lang"], "text": "\n".join(lines), "config": {"base": c["base"], "overrides": c["overrides"], "checkKeywords": c["checkKeywords"]}}
         if im["errors"]:
